@@ -177,6 +177,10 @@ func (s *Schema) Validate(document jschema.Document) (err error) {
 		return fmt.Errorf("support only JSON documents, but got %T", document)
 	}
 
+	if s.inner.RootNode() == nil {
+		return errors.NewDocumentError(s.file, errors.ErrEmptySchema)
+	}
+
 	return s.validate(document)
 }
 
@@ -297,7 +301,7 @@ func (c *userTypesCollector) collect(node internalSchema.Node) {
 	case *internalSchema.MixedValueNode:
 		for _, ut := range strings.Split(n.Value().String(), "|") {
 			s := strings.TrimSpace(ut)
-			if s[0] == '@' {
+			if s != "" && s[0] == '@' {
 				c.addType(s)
 			}
 		}
